@@ -78,6 +78,44 @@ func collUnitsAllTypes(us *[]engine.Unit, cfg *engine.Config, seed uint64, confi
 	add(us, kinds.CollRunes(), cfg, seed)
 }
 
+// collInterleaveUnits: two collation trees with DIFFERENT collators fed the same
+// key in consecutive calls (configuration must not leak through shared state).
+func collInterleaveUnits(us *[]engine.Unit, prop string, seed uint64, n int) {
+	pairs := [][2]string{{"und", "de+numeric"}, {"und", "sv+ignorecase+numeric"}, {"en+numeric", "fr-CA"}, {"und+ignorecase", "und"}, {"da", "und+numeric"}}
+	for i := 0; i < n; i++ {
+		pr := pairs[i%len(pairs)]
+		name := fmt.Sprintf("coll-interleave/%s-vs-%s/%d", pr[0], pr[1], i)
+		*us = append(*us, engine.Unit{Name: name, Run: func(res *ev.Result) {
+			r := rng.New(seed, rng.HashString(name))
+			cfg := &engine.Config{Prop: prop, Mons: engine.MMap | engine.MIter | engine.MSize, Queries: 1}
+			kA := kinds.CollString(kinds.CollationConfig(pr[0]))
+			kB := kinds.CollString(kinds.CollationConfig(pr[1]))
+			a := engine.NewSession(kA, cfg, res, name+"/A")
+			b := engine.NewSession(kB, cfg, res, name+"/B")
+			pool := kA.Pool(r, 20+r.Intn(80))
+			for i := 0; i < 300 && !a.Dead && !b.Dead; i++ {
+				key := rng.Pick(r, pool)
+				switch r.Intn(4) {
+				case 0, 1:
+					a.Insert(key)
+					b.Insert(key)
+				case 2:
+					a.Delete(key)
+					b.Delete(key)
+				default:
+					a.Search(key)
+					b.Search(key)
+				}
+				if i%10 == 9 && !a.Dead && !b.Dead {
+					a.After(r)
+					b.After(r)
+				}
+			}
+			res.Inc("units_two_collators_interleaved")
+		}})
+	}
+}
+
 func compoundUnits(us *[]engine.Unit, cfg *engine.Config, seed uint64, schemas int) {
 	for i := 0; i < schemas; i++ {
 		s := kinds.RandomSchema(rng.New(seed, 0xC0DEC, uint64(i)))
@@ -188,6 +226,7 @@ func EngineUnits(prop string, t Tier, seed uint64) ([]engine.Unit, error) {
 		cfg.Sweeps = 1 * t.F
 		var us []engine.Unit
 		collUnitsAllTypes(&us, cfg, seed, allCollNames())
+		collInterleaveUnits(&us, prop, seed, 10*t.F)
 		return us, nil
 	case "C09":
 		cfg := base(prop, engine.MMap|engine.MIter|engine.MRange|engine.MExt|engine.MSize, t)
